@@ -112,7 +112,7 @@ func (c *ctx) linkCase(cs M) {
 	layout := cfg["layout"].(string)
 	dev := cfg["dev"].(string)
 	hiZero := cfg["hi"].(string) == "zero"
-	k := linkKeys{app: c.key(), enc: c.key(), fk: c.key(), sk: c.key(), conf: c.rnd.Uint32(), txdr: uint8(c.rnd.Intn(256)), txch: uint8(c.rnd.Intn(256))}
+	k := linkKeys{app: c.key(), enc: c.key(), fk: c.key(), sk: c.key(), conf: c.edge32(), txdr: uint8(c.rnd.Intn(256)), txch: uint8(c.rnd.Intn(256))}
 	orig := c.linkFrame(dir, ack, layout, hiZero)
 	phy := valToPhy(cloneM(orig).(M), false)
 	up := dir == "up"
@@ -256,7 +256,7 @@ func (c *ctx) flipSweep() {
 	dir := []string{"up", "down"}[c.rnd.Intn(2)]
 	ver := c.rnd.Intn(2)
 	layout := []string{"fopts+app", "port0", "app", "foptsonly"}[c.rnd.Intn(4)]
-	k := linkKeys{app: c.key(), enc: c.key(), fk: c.key(), sk: c.key(), conf: c.rnd.Uint32(), txdr: uint8(c.rnd.Intn(256)), txch: uint8(c.rnd.Intn(256))}
+	k := linkKeys{app: c.key(), enc: c.key(), fk: c.key(), sk: c.key(), conf: c.edge32(), txdr: uint8(c.rnd.Intn(256)), txch: uint8(c.rnd.Intn(256))}
 	orig := c.linkFrame(dir, c.rnd.Intn(2) == 0, layout, c.rnd.Intn(4) == 0)
 	if layout != "foptsonly" {
 		// keep the sweep affordable: short payload
